@@ -30,11 +30,17 @@ type JWorld struct {
 	Runner *Runner
 	Sched  *Scheduler
 	Jobs   int
+	// RestartFn / StopFn: set when the components belong to a whole hub instance (stopping and starting is its business)
+	RestartFn func()
+	StopFn    func()
 }
 
 var jStdoutOnce sync.Once
 
 // jSilenceStdout: the jobrunner library prints a banner to stdout, which is the worker protocol channel.
+// JSilenceStdout is jSilenceStdout for harness files of other packages.
+func JSilenceStdout() { jSilenceStdout() }
+
 func jSilenceStdout() {
 	jStdoutOnce.Do(func() {
 		if devNull, err := os.OpenFile("/dev/null", os.O_WRONLY, 0); err == nil {
@@ -66,12 +72,21 @@ func (j *JWorld) start() {
 }
 
 func (j *JWorld) Restart() {
+	if j.RestartFn != nil {
+		j.RestartFn()
+		return
+	}
 	j.Runner.Stop()
 	j.W.Restart()
 	j.start()
 }
 
 func (j *JWorld) Destroy() {
+	if j.StopFn != nil {
+		j.StopFn()
+		_ = os.RemoveAll(j.W.Dir)
+		return
+	}
 	j.Runner.Stop()
 	j.W.Destroy()
 }
